@@ -288,14 +288,11 @@ const maxGen = 2
 // redundantNest reports terms of the shape snapN_key(snapN_idx(...)) / snapN_idx(snapN_key(...)):
 // the snapshot axioms make them equal to their argument, so matching on them only feeds a matching loop.
 func redundantNest(t *sx.T) bool {
-	h := t.Head()
-	if len(t.L) == 2 && strings.HasPrefix(h, "snap") {
-		ih := t.L[1].Head()
-		if strings.HasSuffix(h, "_key") && strings.HasSuffix(ih, "_idx") && strings.TrimSuffix(h, "_key") == strings.TrimSuffix(ih, "_idx") {
-			return true
-		}
-		if strings.HasSuffix(h, "_idx") && strings.HasSuffix(ih, "_key") && strings.TrimSuffix(h, "_idx") == strings.TrimSuffix(ih, "_key") {
-			return true
+	// skey(S, P, sidx(S, P, k)) and sidx(S, P, skey(S, P, j))
+	if len(t.L) == 4 && (t.Head() == "skey" || t.Head() == "sidx") {
+		in := t.L[3]
+		if len(in.L) == 4 && in.Head() != t.Head() && (in.Head() == "skey" || in.Head() == "sidx") {
+			return sx.Eq(in.L[1], t.L[1]) && sx.Eq(in.L[2], t.L[2])
 		}
 	}
 	return false
